@@ -18,7 +18,7 @@ from .. import nf, vg
 from ..core import Ctx
 from ..model import AnalysisError
 
-FLOOR = 12
+FLOOR = 17
 EXPLANATION = (
     "Static analysis of BeamSearch (_make_beam_step, _step, _backtrack, _select_best_beam, pre_decoder_hook) in "
     "rl4co/utils/decoding.py on the def-use value graph: polynomial normal form of the flat (beam, batch) index, agreement of "
@@ -133,6 +133,13 @@ def run(ctx: Ctx):
     items = ret.items if isinstance(ret, vg.Tup) else list(ret.args)
     ok = it.sym(items[0]) is lp and it.sym(items[1]) is it.sym(mk[0].ret.items[0] if isinstance(mk[0].ret, vg.Tup) else mk[0].ret.args[0]) and items[2] is tdv
     ctx.ob("C13.c", "_step:return", ok, fi.loc, "returns the re-indexed log-probs, the selected nodes and the re-indexed state", construct="BeamSearch._step:return")
+    guards = [e for e in it.events if e.kind == "assert" and "mask" in vg.params_of(e.data)]
+    pol = set().union(*[nf.bool_signs(e.data, "mask") for e in guards]) if guards else set()
+    sel_ = it.sym(items[1])
+    on_sel = bool(guards) and all(any(n is sel_ for n in vg.walk(e.data)) and any(n is msk for n in vg.walk(e.data)) for e in guards)
+    ctx.ob("C13.c", "_step:infeasibility-guard", bool(guards) and pol == {+1} and on_sel and all(not e.conds for e in guards), fi.loc,
+           f"unconditionally asserts that the selected node is feasible under the re-indexed mask (sign of the mask in the assertion {sorted(pol)}, needs +1; "
+           f"on the returned selection and the re-indexed mask: {on_sel})", construct="BeamSearch._step:guard")
     # ---------------- _backtrack
     fi, it, fr = analyse(ctx, cls, "_backtrack")
     L = fr.locals
@@ -168,7 +175,7 @@ def run(ctx: Ctx):
     p = nf.poly(fl)
     mon = p.monos()
     ok_e, why_e = False, "flat index is not arange(B) + idx * B"
-    if len(mon) == 2:
+    if len(mon) == 2 and all(c == 1 for c, _ in mon):
         seq = [fs for c, fs in mon if len(fs) == 1]
         prod = [fs for c, fs in mon if len(fs) == 2]
         if seq and prod:
